@@ -1170,6 +1170,8 @@ def _reset_race_programs(seed, n):
                {'op': 'recv', 'c': 0, 'data': (b'' if client else wire.PREFACE) + wire.settings_frame([]) + wire.settings_frame(ack=True)}]
         if limit is not None:
             ops += [{'op': 'update_settings', 'c': 0, 'settings': [(3, limit)]}, {'op': 'recv', 'c': 0, 'data': wire.settings_frame(ack=True)}]
+        shape = rng.choice(['plain', 'plain', 'length', 'pushed'] if client else ['plain', 'plain', 'length'])
+        CL = [(b'content-length', b'10', False)]
         if client:
             victim = 3
             ops += [{'op': 'send_headers', 'c': 0, 'sid': 1, 'headers': REQ, 'es': False},
@@ -1179,14 +1181,33 @@ def _reset_race_programs(seed, n):
                 p = 2 + 2 * j
                 ops.append({'op': 'recv', 'c': 0, 'data': wire.push_promise_frames(1, p, blk([(b':method', b'GET'), (b':scheme', b'https'), (b':path', b'/p'), (b':authority', b'x')]))})
                 ops.append({'op': 'recv', 'c': 0, 'data': wire.headers_frames(p, RESP)})
-            racing = [wire.headers_frames(victim, RESP, end_stream=rng.random() < 0.5), wire.data_frame(victim, b'late' * rng.randrange(0, 50)),
-                      wire.window_update(victim, rng.randrange(1, 1000)), wire.rst_stream(victim, rng.choice([0, 5, 8]))]
+            if shape == 'pushed':
+                # the victim is a pushed stream, reset while still reserved: the pushed response races the reset
+                victim = 2 + 2 * (limit or 0)
+                ops.append({'op': 'recv', 'c': 0, 'data': wire.push_promise_frames(1, victim, blk([(b':method', b'GET'), (b':scheme', b'https'), (b':path', b'/v'), (b':authority', b'x')]))})
+                racing = [wire.headers_frames(victim, RESP), wire.data_frame(victim, b'late' * rng.randrange(0, 50), end_stream=rng.random() < 0.5),
+                          wire.rst_stream(victim, 0)]
+            elif shape == 'length':
+                # the response announced a length and part of the body came before the reset: the rest and the trailers race it
+                ops.append({'op': 'recv', 'c': 0, 'data': wire.headers_frames(victim, blk([(b':status', b'200'), (b'content-length', b'10')]))})
+                if rng.random() < 0.5:
+                    ops.append({'op': 'recv', 'c': 0, 'data': wire.data_frame(victim, b'1234')})
+                racing = [wire.data_frame(victim, b'56'), wire.headers_frames(victim, TRAIL, end_stream=True)]
+            else:
+                racing = [wire.headers_frames(victim, RESP, end_stream=rng.random() < 0.5), wire.data_frame(victim, b'late' * rng.randrange(0, 50)),
+                          wire.window_update(victim, rng.randrange(1, 1000)), wire.rst_stream(victim, rng.choice([0, 5, 8]))]
             alive = wire.headers_frames(1, RESP, end_stream=True)
         else:
             victim = 1
-            ops.append({'op': 'recv', 'c': 0, 'data': wire.headers_frames(1, blk([(h[0], h[1]) for h in REQ]))})
-            racing = [wire.headers_frames(victim, TRAIL, end_stream=True), wire.data_frame(victim, b'late' * rng.randrange(0, 50)),
-                      wire.window_update(victim, rng.randrange(1, 1000)), wire.rst_stream(victim, rng.choice([0, 5, 8]))]
+            req = [(h[0], h[1]) for h in REQ] + ([(b'content-length', b'10')] if shape == 'length' else [])
+            ops.append({'op': 'recv', 'c': 0, 'data': wire.headers_frames(1, blk(req))})
+            if shape == 'length':
+                if rng.random() < 0.5:
+                    ops.append({'op': 'recv', 'c': 0, 'data': wire.data_frame(victim, b'1234')})
+                racing = [wire.data_frame(victim, b'56'), wire.headers_frames(victim, TRAIL, end_stream=True)]
+            else:
+                racing = [wire.headers_frames(victim, TRAIL, end_stream=True), wire.data_frame(victim, b'late' * rng.randrange(0, 50)),
+                          wire.window_update(victim, rng.randrange(1, 1000)), wire.rst_stream(victim, rng.choice([0, 5, 8]))]
             alive = wire.ping(b'12345678')
         ops.append({'op': 'reset_stream', 'c': 0, 'sid': victim, 'code': rng.choice([0, 8, 11])})
         if cleaned:
@@ -1195,7 +1216,8 @@ def _reset_race_programs(seed, n):
             # other streams of the peer fill the limit after the reset
             for j in range(limit or 0):
                 ops.append({'op': 'recv', 'c': 0, 'data': wire.headers_frames(3 + 2 * j, blk([(h[0], h[1]) for h in REQ]))})
-        rng.shuffle(racing)
+        if shape == 'plain':
+            rng.shuffle(racing)
         # RST_STREAM ends what the peer may send on the stream: nothing of the rest after it
         cut = next((i for i, f in enumerate(racing) if f[3] == wire.RST_STREAM), len(racing))
         for f in racing[:cut + 1]:
